@@ -1346,6 +1346,91 @@ def m_boundary(main, rng, tpl):
 
 
 # ----------------------------------------------------------------------------------------------
+# layout variants: the same program with expressions wrapped over several source lines
+# ----------------------------------------------------------------------------------------------
+# `ast.unparse` prints every expression on one line, so no mutant above ever has a multi-line span.  `relayout`
+# re-prints `main` with the value/condition expressions of simple statements parenthesised and broken after
+# randomly chosen operator tokens, continuation lines indented by a random amount (also *less* than the statement).
+
+_BREAK_AFTER = {"<", "<=", ">", ">=", "==", "!=", "+", "-", "*", "//", "%", "&", "|", "^", ",", "and", "or", "if", "else",
+                "(", "[", "in", "not", "is", "="}
+
+
+def _wrap_expr(text, rng, base_indent):
+    import io
+    import tokenize
+    try:
+        toks = list(tokenize.generate_tokens(io.StringIO(text).readline))
+    except (tokenize.TokenError, IndentationError, SyntaxError):
+        return None
+    cuts = []
+    for t in toks:
+        if t.start[0] != 1 or t.end[0] != 1:
+            continue
+        if t.string in _BREAK_AFTER and t.end[1] < len(text) and rng.random() < 0.45:
+            cuts.append(t.end[1])
+    if not cuts:
+        return None
+    out = text
+    for c in sorted(set(cuts), reverse=True):
+        ind = pick(rng, [0, 1, 2, base_indent, base_indent + 4, base_indent + 8, 24, 40])
+        out = out[:c].rstrip(" ") + "\n" + " " * ind + out[c:].lstrip(" ")
+    return "(" + out + ")"
+
+
+def relayout(src, rng):
+    """Module text with the same AST in which expressions of `main` span several lines, or None."""
+    try:
+        prefix, main, suffix = split_main(src)
+    except Exception:  # noqa: BLE001
+        return None
+    reference = ast.dump(main)
+    holes = {}
+
+    def hole(expr):
+        name = f"LAYOUT_HOLE_{len(holes)}_"
+        holes[name] = ast.unparse(expr)
+        return ast.Name(id=name, ctx=ast.Load())
+
+    for node in ast.walk(main):
+        if isinstance(node, (ast.Assign, ast.AugAssign, ast.Return, ast.Expr, ast.AnnAssign)) and getattr(node, "value", None) is not None:
+            if isinstance(node.value, ast.Constant) and isinstance(node.value.value, str):
+                continue        # docstrings
+            if rng.random() < 0.7:
+                node.value = hole(node.value)
+        elif isinstance(node, (ast.If, ast.While)) and rng.random() < 0.7:
+            node.test = hole(node.test)
+    if not holes:
+        return None
+    text = ast.unparse(ast.fix_missing_locations(main))
+    changed = False
+    for name, expr_text in holes.items():
+        line = next((ln for ln in text.split("\n") if name in ln), "")
+        base = len(line) - len(line.lstrip(" "))
+        w = _wrap_expr(expr_text, rng, base)
+        if w is None:
+            w = expr_text
+        else:
+            changed = True
+        text = text.replace(name, w, 1)
+    if not changed:
+        return None
+    try:
+        new_main = ast.parse(text).body[0]
+        if ast.dump(new_main) != reference:
+            return None
+        out = prefix + ("\n" if prefix else "") + text + "\n"
+        if suffix.strip():
+            out += suffix if suffix.endswith("\n") else suffix + "\n"
+        with warnings.catch_warnings():
+            warnings.simplefilter("ignore")
+            compile(out, "<m>", "exec")
+    except (SyntaxError, ValueError, IndexError):
+        return None
+    return out
+
+
+# ----------------------------------------------------------------------------------------------
 # driver
 # ----------------------------------------------------------------------------------------------
 
